@@ -712,6 +712,10 @@ def run_three(prog: dict, byhand_text: str, scratch: Path, tag: str) -> dict:
     write_tree(r1, prog['source'])
     write_tree(r2, byhand_text)
     res = {'plain': run_one(r1, 'plain', {}), 'hook': run_one(r1, 'hook', prog['conf']), 'hand': run_one(r2, 'plain', {})}
+    if prog.get('id', 0) % 2 == 0 or prog.get('rehook'):
+        # the same module imported a SECOND time in one process, under another hook: the first import (a decoy
+        # configuration downgrading violations to warnings) must leave no trace in the second
+        res['rehook'] = run_one(r1, 'rehook', prog['conf'])
     shutil.rmtree(r1, ignore_errors=True)
     shutil.rmtree(r2, ignore_errors=True)
     return res
@@ -814,6 +818,17 @@ def judge_behaviour(prog: dict, runs: dict, linemap: dict, model_differs: bool):
     if diffs:
         key = KEY_SUB if model_differs else 'C05:hooked-vs-byhand:' + diffs[0].split()[0].rstrip(':')
         out.append((key, 'hooked run differs from the hand-decorated run: ' + '; '.join(diffs)[:600]))
+    # 7 a re-import under this hook after an import under ANOTHER hook == a first import under this hook
+    re = runs.get('rehook')
+    if re is not None:
+        rd = [f for f in ('exc', 'tb', 'stdout', 'globals', 'reached', 'missed') if re.get(f) != hook.get(f)]
+        if [w[0] for w in re['warnings']] != [w[0] for w in hook['warnings']]:
+            rd.append('warnings')
+        if rd:
+            f0 = rd[0]
+            out.append((f'C05:reimport-under-another-hook:{f0}',
+                        f'importing the module under a hook with another configuration first changes what the import under this '
+                        f'configuration does ({rd}): {f0} = {str(re.get(f0))[:200]} instead of {str(hook.get(f0))[:200]}'))
     return out
 
 
